@@ -140,7 +140,7 @@ def run(ck):
     from .. import decoders
     ck.floor("WHO/overlap-safe-copy", decoders.overlap_safe(ck, P, "WHO/overlap-safe-copy", r"inflate::writer::Writer::copy_match_help$"), 1)
     from .. import condparity
-    ck.floor("SIB/ref-conditions", condparity.check(ck, P, "SIB/ref-conditions", only={"inflate.c:inflate", "inffast_tpl.h:INFLATE_FAST", "inftrees.c:zng_inflate_table", "match_tpl.h:LONGEST_MATCH", "deflate_stored.c:deflate_stored", "deflate.c:fill_window", "deflate_fast.c:deflate_fast", "deflate_slow.c:deflate_slow", "deflate_medium.c:deflate_medium", "deflate_medium.c:emit_match", "deflate_medium.c:insert_match", "deflate_medium.c:fizzle_matches", "deflate_quick.c:deflate_quick", "deflate_rle.c:deflate_rle", "deflate_huff.c:deflate_huff", "trees.c:zng_tr_flush_block", "trees.c:gen_bitlen", "trees.c:build_tree", "trees.c:scan_tree", "trees.c:build_bl_tree"}), 100)
+    ck.floor("SIB/ref-conditions", condparity.check(ck, P, "SIB/ref-conditions", only={"deflate.c:deflate", "inflate.c:inflate", "inffast_tpl.h:INFLATE_FAST", "inftrees.c:zng_inflate_table", "match_tpl.h:LONGEST_MATCH", "deflate_stored.c:deflate_stored", "deflate.c:fill_window", "deflate_fast.c:deflate_fast", "deflate_slow.c:deflate_slow", "deflate_medium.c:deflate_medium", "deflate_medium.c:emit_match", "deflate_medium.c:insert_match", "deflate_medium.c:fizzle_matches", "deflate_quick.c:deflate_quick", "deflate_rle.c:deflate_rle", "deflate_huff.c:deflate_huff", "trees.c:zng_tr_flush_block", "trees.c:gen_bitlen", "trees.c:build_tree", "trees.c:scan_tree", "trees.c:build_bl_tree"}), 100)
     # the compressor core keeps every state update of its reference implementation (window slide, match state, cursors)
     from .. import refwrites
     ck.floor("SIB/ref-writes", refwrites.check(ck, P, "SIB/ref-writes", only={"deflate.c:fill_window", "deflate.c:lm_init", "deflate.c:lm_set_level", "deflate_fast.c:deflate_fast", "deflate_slow.c:deflate_slow", "deflate_medium.c:deflate_medium", "deflate_quick.c:deflate_quick", "deflate_rle.c:deflate_rle", "deflate_huff.c:deflate_huff", "deflate_stored.c:deflate_stored"}), 40)
